@@ -78,8 +78,10 @@ def model_expr(c):
         return f"exists_op {fs} {base} {root} {ident}"
     if op == "resolve":
         return f"resolve_within_root {fs} {base} {root} {ident}"
-    if op in ("add", "builder_add"):
-        return f"{op} {fs} {base} {ident} {cstr(c['data'])}"
+    if op == "add":
+        return f"add {fs} {base} {root} {ident} {cstr(c['data'])}"
+    if op == "builder_add":
+        return f"builder_add {fs} {base} {ident} {cstr(c['data'])}"
     if op == "to_folder":
         rels = "[" + "; ".join(cloc(split_path(r)) for r in c["rels"]) + "]"
         return f"to_folder {fs} {cloc(PFX + split_path(c['dest']))} {rels}"
@@ -517,11 +519,22 @@ def facts(ctx):
         if not re.search(rx, rb):
             raise TieBroken(f"srcfacts: resolve_within_root: {what} test not found; re-transcribe Model/FsPaths.v")
     ab = common.fn_body(rs, r"pub\s+fn\s+add\s*<", "ResourceStore::add")
-    if not re.search(r"sanitize_archive_path\(&id\.into\(\)\)\?;\s*let\s+path\s*=\s*base\.join\(&sanitized_id\);\s*create_dir_all\(path\.parent\(\)", ab):
-        raise TieBroken("srcfacts: ResourceStore::add no longer is sanitize; join; create_dir_all(parent); write")
-    if re.search(r"canonicalize\(\)|within_root|symlink_metadata", ab):
-        raise TieBroken("srcfacts: ResourceStore::add now resolves the real location before writing (F-SYMLINK-WRITE repaired?): "
-                        "re-transcribe `add` in Model/FsPaths.v and close the finding")
+    if not re.search(r"sanitize_archive_path\(&id\.into\(\)\)\?;\s*let\s+path\s*=\s*base\.join\(&sanitized_id\);(\s*//[^\n]*)*\s*create_dir_all\(base\)\?;\s*"
+                     r"let\s+root\s*=\s*self\.resource_root\.as_deref\(\)\.unwrap_or\(base\);\s*ensure_real_parent_within_root\(root,\s*&path\)\?;\s*"
+                     r"create_dir_all\(path\.parent\(\)\.unwrap_or\(Path::new\(\"\"\)\)\)\?;\s*write\(path,", ab):
+        raise TieBroken("srcfacts: ResourceStore::add no longer is sanitize; join; create_dir_all(base); ensure_real_parent_within_root; "
+                        "create_dir_all(parent); write - re-transcribe `add` in Model/FsPaths.v")
+    if not re.search(r"\}\s*else\s*\{(\s*//[^\n]*)*\s*ensure_real_parent_within_root\(root,\s*&joined\)\?;\s*\}", rb):
+        raise TieBroken("srcfacts: resolve_within_root: the missing-target branch no longer calls ensure_real_parent_within_root")
+    eb = common.fn_body(rs, r"fn\s+ensure_real_parent_within_root\s*\(", "ensure_real_parent_within_root")
+    for rx, what in ((r"path\s*\.symlink_metadata\(\)\s*\.map\(\|m\|\s*m\.file_type\(\)\.is_symlink\(\)\)\s*\.unwrap_or\(false\)", "final-component symlink test"),
+                     (r"let\s+canonical_root\s*=\s*root\.canonicalize\(\)\?;", "canonical root"),
+                     (r"let\s+mut\s+ancestor\s*=\s*path\.parent\(\);", "ancestor walk"),
+                     (r"if\s+dir\.symlink_metadata\(\)\.is_ok\(\)", "deepest existing ancestor (lstat)"),
+                     (r"Ok\(real\)\s+if\s+real\.starts_with\(&canonical_root\)\s*=>\s*Ok\(\(\)\)", "ancestor containment"),
+                     (r"ancestor\s*=\s*dir\.parent\(\);", "ancestor step")):
+        if not re.search(rx, eb):
+            raise TieBroken(f"srcfacts: ensure_real_parent_within_root: {what} not found; re-transcribe Model/FsPaths.v")
     ub = common.fn_body(common.strip_tests(common.src("sdk/src/utils/io_utils.rs")), r"pub\s+fn\s+uri_to_path\s*\(", "uri_to_path")
     for rx, what in ((r"uri\.replace\(':',\s*\"_\"\)", "colon replacement"), (r"strip_prefix\(\"self#jumbf=\"\)", "self#jumbf= prefix"),
                      (r"strip_prefix\(\"/c2pa/\"\)", "/c2pa/ prefix"), (r"sanitize_archive_path\(&path_str\)", "final sanitisation")):
@@ -535,7 +548,7 @@ def facts(ctx):
     tf = common.fn_body(common.strip_tests(common.src("sdk/src/reader.rs")), r"pub\s+fn\s+to_folder\s*<", "Reader::to_folder")
     if not re.search(r"let\s+file_path\s*=\s*path\.as_ref\(\)\.join\(rel_path\);", tf) or not re.search(r"uri_to_path\(&uri,\s*Some\(claim_label\)\)", tf):
         raise TieBroken("srcfacts: Reader::to_folder no longer joins uri_to_path(..) to the folder; re-transcribe Model/FsPaths.v")
-    ctx.facts = {"add_checks_real_parent": False}
+    ctx.facts = {"add_checks_real_parent": True}
 
 
 def build_cases(ctx, n_fs, n_tf, n_ar, n_lex):
